@@ -6,6 +6,7 @@ import math
 
 from common import Outcome, f2h, h2f, np, rng_for, run_driver
 
+RULE_ADDENDA = ("state-machine histories fit|update|reset incl. unfitted updates; references and windows above 10 000; retained result objects; caller's (read-only) arrays untouched")
 LEVEL = "proof"
 EXPLANATION = ("Theorems (Lean): the lattice-path DP the model runs equals the number of interleavings staying inside the band, for all n, m "
                "(so the model's p-value IS the exact null probability at any size); statistic = sup|F_ref - F_test|; permutation invariance "
